@@ -324,6 +324,7 @@ class FuncFlow:
         self.model = model
         self.node = funcinfo.node
         self.pre: dict[int, State] = {}
+        self.order: dict[int, int] = {}               # statement -> position in execution (walk) order
         self.post: dict[int, State] = {}
         self.exits: list[Exit] = []
         self.resolved: dict[int, ast.AST] = {}       # id(stmt) -> resolved value / test of that statement
@@ -357,6 +358,10 @@ class FuncFlow:
                 self.exits.append(Exit('fallthrough', self.node, out.normal))
 
     # ---------------------------------------------------------------- queries
+    def seq(self, stmt):
+        """Position of a statement in execution order (statements of expanded helpers have no meaningful line order)."""
+        return self.order.get(id(stmt), -1)
+
     def normal_exits(self):
         return [e for e in self.exits if e.kind in ('return', 'fallthrough')]
 
@@ -640,6 +645,7 @@ class FuncFlow:
         return Out(st, kinds)
 
     def run_stmt(self, s, st: State) -> Out:
+        self.order.setdefault(id(s), len(self.order))
         self.pre[id(s)] = st
         before = st
         st = st.copy()
